@@ -4,6 +4,11 @@ CONSTANTS
   EditPlan <- Plan3333
   Twin = FALSE
   Modes = {"inc", "incskip", "force"}
+  FlagSet = {"none", "ignore-ctime", "ignore-inode"}
+  Targets = {"dir"}
+  Bigs = {FALSE}
+  FaultKinds = {}
+  MaxVictim = 0
   Emit = TRUE
 INVARIANT IncEqualsFull
 CHECK_DEADLOCK FALSE
